@@ -55,7 +55,10 @@ func runC18Crossing(rc *RC) {
 	serveT := e.Serve(mux.New(e.NS, muc.HandleClient(client)))
 	room := "room0@conf.example.net/nick"
 	second := ch.Int("workload", 3) // the call that crosses the half-delivered presence: 0 rejoin through the channel, 1 a fresh Join of the same address, 2 leave
-	halfKind := ch.Int("workload", 2) // what is half delivered: 0 a self-presence update, 1 another occupant's presence
+	halfKind := ch.Int("workload", 3) // what is half delivered: 0 a self-presence update, 1 another occupant's presence, 2 the occupant's own removal (a kick)
+	if halfKind == 2 && second == 2 {
+		second = ch.Int("workload", 2) // after a removal the crossing call is a (re)join: the room admits the occupant again
+	}
 	gap := time.Duration(ch.Range("workload", 1, 40)) * 25 * time.Millisecond
 	rc.Describe("crossing strategy=%s second=%d half=%d gap=%v", strat, second, halfKind, gap)
 	rc.CaseKey = fmt.Sprint("crossing", second, halfKind)
@@ -107,7 +110,12 @@ func runC18Crossing(rc *RC) {
 			from = "room0@conf.example.net/somebody"
 		}
 		halfPending = true
-		e.PeerWrite(fmt.Sprintf(`<presence from="%s"><x xmlns="http://jabber.org/protocol/muc#user">`, from))
+		if halfKind == 2 {
+			e.PeerWrite(fmt.Sprintf(`<presence from="%s" type="unavailable"><x xmlns="http://jabber.org/protocol/muc#user">`, from))
+			rc.Fire("removal-half-delivered")
+		} else {
+			e.PeerWrite(fmt.Sprintf(`<presence from="%s"><x xmlns="http://jabber.org/protocol/muc#user">`, from))
+		}
 		rc.Fire("presence-half-delivered")
 		// … the rest of it a little later, written by somebody else
 		rc.Spawn("second-half", func() {
@@ -116,11 +124,20 @@ func runC18Crossing(rc *RC) {
 			if halfKind == 0 {
 				status = `<status code="110"/>`
 			}
-			e.PeerWrite(`<item affiliation="member" role="participant"/>` + status + `</x></presence>`)
+			if halfKind == 2 {
+				e.PeerWrite(`<item affiliation="member" role="none"/><status code="110"/><status code="307"/></x></presence>`)
+			} else {
+				e.PeerWrite(`<item affiliation="member" role="participant"/>` + status + `</x></presence>`)
+			}
 			halfPending = false
 		})
 		// … and meanwhile the next call
 		simrt.Sleep(time.Duration(ch.Range("workload", 0, 40)) * 25 * time.Millisecond)
+		if halfKind == 2 {
+			// the rejoin follows the removal: the session has taken in the first half (its serve loop waits for the rest), so
+			// that the room reads the request after it has removed the occupant and admits it again
+			simrt.WaitUntil("input-drained", func() bool { return e.ServeDone || e.SUT.ReadIdle() })
+		}
 		ctx2, cancel2 := context.WithTimeout(e.Ctx, 20*time.Second)
 		switch second {
 		case 0:
